@@ -11,7 +11,7 @@ def suite():
     m = re.search(r'(\d+) failed, (\d+) passed', r.stdout) or re.search(r'(\d+) passed', r.stdout)
     fails = sorted(re.findall(r'FAILED (\S+)', r.stdout))
     return r.stdout, m.groups() if m else None, fails
-for n in (13, 14):
+for n in [int(x) for x in os.environ.get('NS', '15 16').split()]:
     patch = f'{wt}/out/patch{n}.diff'
     if not os.path.exists(patch):
         continue
